@@ -641,7 +641,7 @@ def standard_run(ctx, mod):
         pre(ctx, lib)
     import importlib
     subs = [importlib.import_module(n) for n in getattr(mod, "SUBCHECKS", [])]   # model layers checked as part of this property
-    proof_ok = coq_check_many(ctx, [mod.PROP_FILE] + [s.PROP_FILE for s in subs])
+    proof_ok = coq_check_many(ctx, getattr(mod, "PROP_FILES", [mod.PROP_FILE]) + [f for s in subs for f in getattr(s, "PROP_FILES", [s.PROP_FILE])])
     ctx.say("proofs: %d/%d %s" % (ctx.proof["discharged"], ctx.proof["obligations"], "ok" if proof_ok else "BROKEN"))
     if not proof_ok:
         ctx.say(json.dumps(ctx.proof["failed"], indent=1)[:3000])
